@@ -16,8 +16,8 @@ PLAN = dict(
          "accept a Reseed and serve again (bytes equal to the model), NIST twins must serve, and the wrappers' Read must succeed with exactly one "
          "reseed from the scripted source (Script.MaxBytes turns an endless reseed loop into a violation). distinct = class keys (configuration | operation / size or length class / "
          "additional input / position of the reseed counter / outcome); no case is trivial",
-    jobs=both("c17.history", _CFG + ["avx", "sse", "aesni1"], shards=(2, 8), floor=2000)  # SM3 AVX/SSSE3 blocks (Hash/HMAC over SM3), single-block AES-NI SM4 (CTR_DRBG)
-    + both("c17.reader", _CFG, shards=(1, 4), floor=300)
+    jobs=both("c17.history", _CFG + ["avx", "sse", "aesni1", "ia32"], shards=(2, 8), floor=2000)  # SM3 AVX/SSSE3 blocks (Hash/HMAC over SM3), single-block AES-NI SM4 (CTR_DRBG)
+    + both("c17.reader", _CFG + ["ia32"], shards=(1, 4), floor=300)
     + both("c17.faults", _CFG, shards=(1, 2), floor=1000)
     # one case, one process, one sleep of 6.3 s: the GM reseed time rule in every tier
     + [J("c17.timerule", configs=["avx2"], variant="asm", shards=(1, 1), floor=1)],
